@@ -1,25 +1,25 @@
 #!/usr/bin/env python3
-"""Copy the sub-agents' deliverables into /verif/seeded/<PROP>-<round>-<n>/ (patch.diff, demo.py, agent_notes.md)."""
-import os, re, shutil
-for rnd, pat in ((1, '/tmp/seed_%s_out'), (2, '/tmp/seed2_%s_out')):
-    for i in range(1, 21):
-        prop = 'C%02d' % i
-        src = pat % prop
-        if not os.path.isdir(src):
+"""tools/seed_import.py ROUND [PROP...] : copy the independent authors' deliverables of one round from
+/tmp/seed<ROUND>_<PROP>_out into /verif/seeded/<PROP>-r<ROUND>-<n>/ (patch.diff, demo.py, agent_notes.md).
+Existing directories are left alone."""
+import os, shutil, sys
+rnd = sys.argv[1]
+props = sys.argv[2:] or ['C%02d' % i for i in range(1, 21)]
+for prop in props:
+    wt = '/tmp/seed%s_%s' % (rnd, prop)
+    src = wt + '_out'
+    if not os.path.isdir(src):
+        continue
+    for n in (1, 2, 3):
+        pf, df = os.path.join(src, 'patch%d.diff' % n), os.path.join(src, 'demo%d.py' % n)
+        dst = '/verif/seeded/%s-r%s-%d' % (prop, rnd, n)
+        if not (os.path.exists(pf) and os.path.exists(df)) or os.path.exists(dst):
             continue
-        for n in (1, 2, 3):
-            pf = os.path.join(src, 'patch%d.diff' % n)
-            df = os.path.join(src, 'demo%d.py' % n)
-            if not (os.path.exists(pf) and os.path.exists(df)):
-                continue
-            dst = '/verif/seeded/%s-r%d-%d' % (prop, rnd, n)
-            os.makedirs(dst, exist_ok=True)
-            wt = '/tmp/seed%s_%s' % ('2' if rnd == 2 else '', prop)
-            txt = open(pf).read().replace('a' + wt + '/', 'a/').replace('b' + wt + '/', 'b/')
-            open(os.path.join(dst, 'patch.diff'), 'w').write(txt)
-            demo = open(df).read().replace(wt + '_out', '@OUT@').replace(wt, '@WT@')
-            open(os.path.join(dst, 'demo.py'), 'w').write(demo)
-            notes = os.path.join(src, 'notes.md')
-            if os.path.exists(notes):
-                shutil.copy(notes, os.path.join(dst, 'agent_notes.md'))
-print(len(os.listdir('/verif/seeded')))
+        os.makedirs(dst)
+        txt = open(pf).read().replace('a' + wt + '/', 'a/').replace('b' + wt + '/', 'b/')
+        open(os.path.join(dst, 'patch.diff'), 'w').write(txt)
+        demo = open(df).read().replace(src, '@OUT@').replace(wt, '@WT@')
+        open(os.path.join(dst, 'demo.py'), 'w').write(demo)
+        if os.path.exists(os.path.join(src, 'notes.md')):
+            shutil.copy(os.path.join(src, 'notes.md'), os.path.join(dst, 'agent_notes.md'))
+        print('imported', dst)
